@@ -55,3 +55,5 @@ def run(out, sc, tier, seed):
     out.add_trace_results("ctor", results, recs)
     run_value_machine(out, sc, "C07", tier, fields=FIELDS)
     run_harvest(out, sc, "C07")
+    from .common import run_witnesses
+    run_witnesses(out, sc, "C07")
